@@ -34,11 +34,12 @@ from vlib import c33_harness as H
 ID = 'C33'
 LEVEL = 'exploration'
 RULE = ('One case = hook table (4 classes x 6 hooks -> body in {nothing, read, readcoll, mod_self, mod_other, create} + argument), '
-        'a per-operation budget of hook side effects (0..4) and 1..3 db_sessions of operations (new_p/new_t/new_k/set/same/setkw/'
-        'move/alt/alts_add/alts_remove/link/unlink/del/flush/oflush/query/commit/rollback; session exit commit or exception) '
-        'on the P/K/K2/T model. Part 1 (grid, complete): every single (class, hook, body, argument) assignment [thorough: also '
-        'every before-body x after-body pair per class] x 7 fixed scenario histories. Part 2 (hypothesis): random hook tables and '
-        'histories. Non-trivial = at least one hook call performed a side effect (attribute write / object creation), or one '
+        'a per-operation budget of hook side effects (0..8) and 1..3 db_sessions of operations (new_p/new_t/new_k/set/same/setkw/'
+        'move/alt/up/alts_add/alts_remove/link/unlink/del/flush/oflush/query/commit/rollback; session exit commit or exception) '
+        'on the P/K/K2/T model (P.up is a self-reference, kept acyclic). Part 1 (grid, complete): every single (class, hook, body, argument) assignment [thorough: also '
+        'every before-body x after-body pair per class] and 24 same-body-on-every-class tables x 13 fixed scenario histories (6 of them obj.flush() on chains / a diamond / a tree of unsaved principals K -> P -> P -> P). Part 2 (hypothesis): random hook tables and '
+        'histories. Part 3 (hypothesis): histories built around obj.flush() of the newest object of a chain / tree / diamond of 2..5 '
+        'new P and 0..2 new K, same bodies on every level or random per level. Non-trivial = at least one hook call performed a side effect (attribute write / object creation), or one '
         'object got two or more statements within one session, or a flush ran inside an after-hook; distinct by the sha1 of the '
         'value-free trace (sequence of hook kind:class:effect and statement kind:table entries of the whole log). Rejected = '
         'history that met one of two Pony read refusals outside this property (UnrepeatableReadError phantom object '
@@ -52,6 +53,7 @@ ASSUMPTIONS = ['SQLite 3 live through pony.orm.dbproviders.sqlite; statements ob
 SHARDS = {'quick': 4, 'thorough': 16}
 MIN_EVALS = {'quick': 2500, 'thorough': 20000}
 CLASS_FLOORS = {'before_effect': 0.10, 'after_effect': 0.08, 'twice_in_session': 0.10, 'obj_flush': 0.05,
+                'obj_flush_unsaved_chain_2plus': 0.03, 'obj_flush_unsaved_chain_3plus': 0.01,
                 'rollback': 0.05, 'update_then_delete': 0.01, 'create_delete_unflushed': 0.02}
 
 SIDE_EFFECTS = ('mod_self', 'mod_other', 'create')
@@ -100,6 +102,34 @@ def scenarios():
             {'ops': [O('new_p', v=1), O('new_t', v=2), O('new_t', v=3), O('link', j=0), O('query', i=2), O('link', j=1, f=True),
                      O('set', i=0, v=2), O('query', i=1), O('unlink', f=True), O('set', i=1, v=3), O('query', i=0),
                      O('new_k', v=1), O('query', i=0), O('del', i=3)], 'end': 'commit'}]),
+    ] + chain_scenarios()
+
+
+def chain_scenarios():
+    """obj.flush() on objects whose not yet inserted principals form chains (K -> P -> P -> P through K.parent / P.up),
+    a diamond and a tree; selector -1 is the newest object of the class; oflush attr 'c' = a K, 'b' = a P"""
+    up = lambda j=-1, v=1: O('new_p', j=j, v=v, f=True)
+    return [
+        ('chain3_created_kid', [
+            {'ops': [O('new_p', v=1), up(), up(), O('new_k', i=-1, v=2), O('oflush', i=-1, attr='c'),
+                     O('set', i=0, v=3), O('set', i=3, v=4), O('oflush', i=-1, attr='c'), O('flush')], 'end': 'commit'}]),
+        ('chain2_parents_only', [
+            {'ops': [O('new_p', v=1), up(), up(), O('oflush', i=-1, attr='b'), O('new_p', v=2), up(), O('oflush', i=-1, attr='b'),
+                     O('set', i=0, v=5), O('oflush', i=0, attr='b')], 'end': 'commit'}]),
+        ('chain3_modified_kid', [
+            {'ops': [O('new_p', v=1), O('new_k', v=2, attr='c')], 'end': 'commit'},
+            {'ops': [O('same', i=1), O('new_p', v=3), up(), up(), O('move', i=0, j=-1), O('oflush', i=0, attr='c'), O('query'),
+                     O('new_p', v=4), up(), O('alt', i=0, j=-1), O('oflush', i=0, attr='c')], 'end': 'commit'}]),
+        ('diamond', [
+            {'ops': [O('new_p', v=1), up(j=0), up(j=0), O('new_k', i=1, j=2, v=2, f=True), O('oflush', i=-1, attr='c'),
+                     O('flush')], 'end': 'commit'}]),
+        ('tree', [
+            {'ops': [O('new_p', v=1), O('new_p', v=2), up(j=0), up(j=1), O('new_k', i=2, j=3, v=2, f=True, attr='c'),
+                     O('oflush', i=-1, attr='c'), O('set', i=0, v=7), O('commit')], 'end': 'commit'}]),
+        ('chain_partly_saved', [
+            {'ops': [O('new_p', v=1), up(), O('oflush', i=-1, attr='b'), up(), up(), O('new_k', i=-1, v=2),
+                     O('up', i=-1, j=0), O('oflush', i=-1, attr='c'), O('up', i=-1, f=True), O('oflush', i=-1, attr='b')],
+             'end': 'commit'}]),
     ]
 
 
@@ -113,8 +143,24 @@ def _arg_values(body, tier):
     return (0, 1, 2, 3) if tier == 'quick' else (0, 1, 2, 3, 4, 7)
 
 
+def level_tables():
+    """the same bodies on every class (= on every level of a reference chain); budget 6 lets every level act"""
+    out = []
+    for name, before, after in (('edit', 'mod_self', 'nothing'), ('edit+read', 'mod_self', 'read'),
+                                ('edit+edit', 'mod_self', 'mod_self'), ('read+edit', 'read', 'mod_self'),
+                                ('other+read', 'mod_other', 'readcoll'), ('create+edit', 'create', 'mod_self')):
+        for arg in (0, 1, 2, 5):
+            if arg and 'create' not in (before, after) and 'mod_other' not in (before, after): continue
+            t = empty_hooks()
+            for c in H.CLASSES:
+                for h in H.HOOKS[:3]: t[c][h] = [before, arg]
+                for h in H.HOOKS[3:]: t[c][h] = [after, arg]
+            out.append(('levels:%s/%d' % (name, arg), t))
+    return out
+
+
 def grid_hook_tables(tier):
-    out = [('all_nothing', empty_hooks())]
+    out = [('all_nothing', empty_hooks())] + level_tables()
     for c in H.CLASSES:
         for h in H.HOOKS:
             for body in H.BODIES[1:]:
@@ -144,7 +190,7 @@ def grid_cases(tier):
     for tname, table in grid_hook_tables(tier):
         pair = ',' in tname
         for sname, sessions in scenarios():
-            for budget in ((2,) if tier == 'quick' or pair else (1, 3)):
+            for budget in ((6,) if tname.startswith('levels:') else (2,) if tier == 'quick' or pair else (1, 3)):
                 yield k, {'hooks': table, 'budget': budget, 'sessions': sessions, 'origin': 'grid:%s:%s' % (tname, sname)}
                 k += 1
 
@@ -153,7 +199,7 @@ def grid_cases(tier):
 # random cases
 # ------------------------------------------------------------------------------------------------
 OP_KINDS = (['new_p'] * 2 + ['new_t'] + ['new_k'] * 3 + ['set'] * 6 + ['same'] + ['setkw'] + ['move'] + ['alt'] +
-            ['alts_add'] + ['alts_remove'] + ['link'] * 2 + ['unlink'] + ['del'] * 3 + ['flush'] * 3 + ['oflush'] * 2 +
+            ['alts_add'] + ['alts_remove'] + ['link'] * 2 + ['unlink'] + ['del'] * 3 + ['flush'] * 3 + ['oflush'] * 3 + ['up'] +
             ['query'] * 2 + ['commit'] * 2 + ['rollback'])
 BODY_WEIGHTED = ['nothing'] * 3 + ['read', 'readcoll'] + ['mod_self'] * 2 + ['mod_other'] * 2 + ['create'] * 2
 
@@ -162,11 +208,11 @@ def case_strategy(tier):
     from hypothesis import strategies as st
     big = tier == 'thorough'
     op = st.fixed_dictionaries({
-        'k': st.sampled_from(OP_KINDS), 'i': st.integers(0, 7), 'j': st.integers(0, 5),
+        'k': st.sampled_from(OP_KINDS), 'i': st.integers(-2, 7), 'j': st.integers(-2, 5),
         'attr': st.sampled_from(['a', 'b', 'h', 'c']), 'v': st.integers(0, 9),
         'w': st.one_of(st.none(), st.integers(0, 9)), 'f': st.booleans()})
     creator = st.fixed_dictionaries({
-        'k': st.sampled_from(['new_p', 'new_p', 'new_k', 'new_k', 'new_t']), 'i': st.integers(0, 3), 'j': st.integers(0, 3),
+        'k': st.sampled_from(['new_p', 'new_p', 'new_k', 'new_k', 'new_t']), 'i': st.integers(-2, 3), 'j': st.integers(-2, 3),
         'attr': st.sampled_from(['a', 'c']), 'v': st.integers(0, 9), 'w': st.one_of(st.none(), st.integers(0, 9)),
         'f': st.booleans()})
     first = st.builds(lambda a, b: a + b, st.lists(creator, min_size=0, max_size=4),
@@ -177,7 +223,45 @@ def case_strategy(tier):
     sessions = st.builds(lambda a, rest: [a] + rest, sess(first), st.lists(sess(later), min_size=0, max_size=2))
     hook = st.tuples(st.sampled_from(BODY_WEIGHTED), st.integers(0, 11)).map(list)
     hooks = st.fixed_dictionaries(dict((c, st.fixed_dictionaries(dict((h, hook) for h in H.HOOKS))) for c in H.CLASSES))
-    return st.fixed_dictionaries({'hooks': hooks, 'budget': st.sampled_from([0, 1, 2, 2, 3, 4]), 'sessions': sessions})
+    return st.fixed_dictionaries({'hooks': hooks, 'budget': st.sampled_from([0, 1, 2, 2, 3, 4, 6]), 'sessions': sessions})
+
+
+def chain_case_strategy(tier):
+    """histories built around obj.flush() of an object whose unsaved principals form a chain / tree / diamond:
+    [optional committed session] + session = 2..5 new P (most of them referring to an earlier one through P.up),
+    0..2 new K hanging on the newest P's (optionally with an alt: second branch), obj.flush() of one of the newest
+    objects, then a short random tail.  Hook tables: one before-body and one after-body for all levels, or random per level."""
+    from hypothesis import strategies as st
+    big = tier == 'thorough'
+    val = st.integers(0, 9)
+    new_p = st.builds(lambda j, v, w, f: O('new_p', j=j, v=v, w=w, f=f), st.sampled_from([-1, -1, -1, -2, 0, 1]), val,
+                      st.one_of(st.none(), val), st.sampled_from([True, True, True, False]))
+    new_k = st.builds(lambda i, j, v, f, sub: O('new_k', i=i, j=j, v=v, f=f, attr='c' if sub else 'a'),
+                      st.sampled_from([-1, -1, -2]), st.sampled_from([-1, -2, -3, 0]), val, st.booleans(), st.booleans())
+    rewire = st.one_of(st.builds(lambda i, j: O('move', i=i, j=j), st.integers(-1, 2), st.sampled_from([-1, -2])),
+                       st.builds(lambda i, j: O('alt', i=i, j=j), st.integers(-1, 2), st.sampled_from([-1, -2])),
+                       st.builds(lambda i, j: O('up', i=i, j=j), st.sampled_from([-1, -2]), st.integers(-2, 2)))
+    oflush = st.builds(lambda i, attr: O('oflush', i=i, attr=attr), st.sampled_from([-1, -1, -2, 0]), st.sampled_from(['c', 'c', 'b', 'a']))
+    tail_op = st.fixed_dictionaries({
+        'k': st.sampled_from(['set', 'set', 'oflush', 'oflush', 'flush', 'new_p', 'new_k', 'del', 'query', 'commit', 'up', 'move']),
+        'i': st.integers(-2, 5), 'j': st.integers(-2, 3), 'attr': st.sampled_from(['a', 'b', 'h', 'c']), 'v': val,
+        'w': st.one_of(st.none(), val), 'f': st.booleans()})
+    chain = st.builds(lambda ps, ks, rw, fl, tail: ps + ks + rw + [fl] + tail,
+                      st.lists(new_p, min_size=2, max_size=5), st.lists(new_k, min_size=0, max_size=2),
+                      st.lists(rewire, min_size=0, max_size=1), oflush, st.lists(tail_op, min_size=0, max_size=6 if big else 4))
+    end = st.sampled_from(['commit', 'commit', 'commit', 'rollback'])
+    base = st.lists(st.one_of(new_p, new_k), min_size=1, max_size=3)
+    sessions = st.one_of(
+        st.builds(lambda ops, e: [{'ops': ops, 'end': e}], chain, end),
+        st.builds(lambda b, ops, e: [{'ops': b, 'end': 'commit'}, {'ops': ops, 'end': e}], base, chain, end),
+        st.builds(lambda ops, ops2, e: [{'ops': ops, 'end': 'commit'}, {'ops': ops2, 'end': e}], chain, chain, end))
+    hook = st.tuples(st.sampled_from(BODY_WEIGHTED), st.integers(0, 11)).map(list)
+    random_table = st.fixed_dictionaries(dict((c, st.fixed_dictionaries(dict((h, hook) for h in H.HOOKS))) for c in H.CLASSES))
+
+    def uniform(before, after):
+        return dict((c, dict([(h, before) for h in H.HOOKS[:3]] + [(h, after) for h in H.HOOKS[3:]])) for c in H.CLASSES)
+    hooks = st.one_of(random_table, st.builds(uniform, hook, hook))
+    return st.fixed_dictionaries({'hooks': hooks, 'budget': st.sampled_from([0, 2, 4, 6, 6, 8]), 'sessions': sessions})
 
 
 # ------------------------------------------------------------------------------------------------
@@ -223,7 +307,13 @@ def run(ctx):
 
     def t(case):
         evaluate(ctx, case, 'random')
-    ctx.run_test(t, {'case': case_strategy(ctx.tier)}, max_examples=ctx.scale(400, 1800), name='random_histories')
+    ctx.run_test(t, {'case': case_strategy(ctx.tier)}, max_examples=ctx.scale(350, 1800), name='random_histories')
+    if ctx.violation is not None:
+        return
+
+    def tc(case):
+        evaluate(ctx, case, 'chains')
+    ctx.run_test(tc, {'case': chain_case_strategy(ctx.tier)}, max_examples=ctx.scale(200, 900), name='chain_histories')
 
 
 def replay(case):
@@ -258,7 +348,7 @@ MANIFEST = {
             '(sqlite3 Connection/Cursor subclasses via bind(factory=)). Hook bodies (nothing, read, read collections, modify self, '
             'modify another object, create an object) and multi-session histories (creates, repeated/same-value updates, '
             'relationship and m2m changes, deletes incl. unflushed and cascade, flush(), obj.flush(), auto-flush queries, commit, '
-            'rollback) are data. A complete grid of single hook assignments (thorough: before x after pairs) over 7 fixed '
+            'rollback) are data. A complete grid of single hook assignments (thorough: before x after pairs) and same-body-on-every-level tables over 13 fixed '
             'histories is enumerated, then hypothesis samples random hook tables and histories. Oracle from the log only: every '
             'entity-table statement has exactly one matching before-hook since the object\'s previous statement and one matching '
             'after-hook before the operation returns, no hook without a statement, and the tables (plain sqlite3) equal a '
